@@ -40,7 +40,8 @@ type Case struct {
 	Acts []Act `json:"acts"`
 }
 
-var keys = [][]byte{[]byte("a"), []byte("b"), []byte("c"), []byte("ctr"), []byte("d\x00"), []byte("\xff")}
+var keys = [][]byte{[]byte("a"), []byte("b"), []byte("c"), []byte("ctr"), []byte("d\x00"), []byte("\xff"),
+	bytes.Repeat([]byte{'L'}, 1024), append(bytes.Repeat([]byte{'L'}, 1020), 'x')} // incl. keys as long as a key may be
 
 func genCase(t *rapid.T) Case {
 	n := rapid.IntRange(3, 40).Draw(t, "n")
